@@ -579,6 +579,7 @@ def build_pipeline_inspection(
     deleted_keys: set[str] = set()  # Tracks keys that have been deleted from context
     all_required_params: set[str] = set()  # All parameters required from context
     all_created_keys: set[str] = set()  # All keys created by any node
+    external_required: set[str] = set()  # Required before any node created them
     errors: List[str] = []
 
     # Process each node configuration
@@ -731,6 +732,10 @@ def build_pipeline_inspection(
                 required_params.add(key)
 
         all_required_params.update(required_params)
+        # A key is external when no *earlier* node has produced it
+        external_required.update(
+            name for name in required_params if name not in key_origin
+        )
 
         required_external_parameters: List[str] = []
         required_hook = getattr(
@@ -830,7 +835,7 @@ def build_pipeline_inspection(
 
     # Calculate pipeline-level required context keys
     # These are parameters required by nodes but not created by any node
-    required_context_keys = all_required_params - all_created_keys
+    required_context_keys = external_required
 
     return PipelineInspection(
         nodes=inspection_nodes,
